@@ -1,6 +1,7 @@
 package p_ring
 
 import (
+	"math"
 	"testing"
 
 	"pgregory.net/rapid"
@@ -25,8 +26,11 @@ func TestC14Exhaustive(t *testing.T) {
 	for cp := 0; cp <= maxCap; cp++ {
 		alpha := Alphabet(cp)
 		depth := vstat.Pick(4, 5) // capacities 2 and 3
-		if cp <= 1 {
+		if cp == 0 {
 			depth = vstat.Pick(5, 6)
+		}
+		if cp == 1 {
+			depth = vstat.Pick(4, 6)
 		}
 		if cp == 4 {
 			depth = 4
@@ -64,7 +68,8 @@ func genCase(t *rapid.T) Case {
 		cp = rapid.IntRange(21, 300).Draw(t, "cap")
 	}
 	arg := func(lo, hi int) *rapid.Generator[int] {
-		return rapid.OneOf(rapid.IntRange(lo, hi), rapid.IntRange(lo, min(hi, 3)), rapid.IntRange(max(lo, cp-2), hi), rapid.IntRange(-1000, 100000))
+		return rapid.OneOf(rapid.IntRange(lo, hi), rapid.IntRange(lo, min(hi, 3)), rapid.IntRange(max(lo, cp-2), hi), rapid.IntRange(-1000, 100000),
+			rapid.SampledFrom([]int{math.MaxInt, math.MaxInt - 1, math.MaxInt / 2, math.MaxInt32, math.MaxInt32 + 1, 1 << 40, math.MinInt, math.MinInt + 1, -1 << 40}))
 	}
 	opGen := rapid.Custom(func(t *rapid.T) Op {
 		switch rapid.IntRange(0, 15).Draw(t, "kind") {
@@ -73,7 +78,7 @@ func genCase(t *rapid.T) Case {
 		case 7, 8:
 			return Op{K: "r"}
 		case 9, 10, 11:
-			return Op{K: "n", N: max(0, arg(0, cp+2).Draw(t, "n"))}
+			return Op{K: "n", N: min(1<<20, max(0, arg(0, cp+2).Draw(t, "n")))} // ReadN needs a real destination slice
 		case 12, 13:
 			return Op{K: "s", N: arg(-1, cp+2).Draw(t, "n")}
 		case 14:
